@@ -28,7 +28,7 @@ CLAIMED["C13"] = dict(
          "child of any kind, child text arbitrary/absent) z3 shows that parsing raises or the message is conformant to the DTD table of the harness.",
     note="Trusted: TreeET element API twin; SymText strip() model; number syntax is checked on a pool of 12 spellings here (language "
          "inclusion is the SMT engine's job in C10). One (quick) or two (thorough) simultaneous perturbations.",
-    ref="DESIGN.md section 6 C13", technique=XH)
+    ref="DESIGN.md section 6 C13", technique=XH + "; number syntax: validator language inside the INDI grammar by z3 regex inclusion over the regexes read from the source")
 CLAIMED["C04"] = dict(
     text="Bounded symbolic model checking of the real Router: inductive step from every state of the bounded universe (3 devices incl. a "
          "catch-all and same-named twins, 3 clients, 4 names, policies) plus 2/3-step histories through the public API, for every "
@@ -183,7 +183,7 @@ m = {
     "engines": [
         {"name": "smt", "path": "/verif/smt", "serves_properties": ["C10", "C13"],
          "kind_free_text": "AST -> SMT-LIB translation (z3 Python API) of the number kernels; regex inclusion and LRA queries; replay on the real functions"},
-        {"name": "xh", "path": "/verif/vf", "serves_properties": sorted(CLAIMED),
+        {"name": "xh", "path": "/verif/vf", "serves_properties": sorted(k for k in CLAIMED if k != "C10"),
          "kind_free_text": "CrossHair 0.0.110 symbolic execution of /repo's modules with z3; one OS process per condition; reach twins; concrete replay"},
     ],
     "checks": checks,
